@@ -35,7 +35,7 @@ Proof.
 Qed.
 (** The same run cut in the middle of its write: one byte of two reached the file. *)
 Definition ex_sched_cut : list (nat * sev) := [(0%nat, SRead (Some [7;8])); (0%nat, SSkip); (0%nat, SMutOk); (0%nat, SMutOk); (0%nat, SMutOk); (0%nat, SCut 1)].
-Example ex_reach_cut : exists s, sreach {| s_fs := ex_f0; s_pool := ex_pool |} s /\ s_pool s = [] /\ fs_file (s_fs s) ex_target = Some [7; 0].
+Example ex_reach_cut : exists s, sreach {| s_fs := ex_f0; s_pool := ex_pool |} s /\ s_pool s = [Ret Fault] /\ fs_file (s_fs s) ex_target = Some [7; 0].
 Proof.
   destruct (sys_run {| s_fs := ex_f0; s_pool := ex_pool |} ex_sched_cut) as [s|] eqn:Er; [|vm_compute in Er; discriminate].
   exists s. split; [exact (sys_run_reach _ _ _ Er)|]. vm_compute in Er. inversion Er; subst. split; reflexivity.
